@@ -21,6 +21,10 @@ pub enum SK {
     Q1Loop(u8),
     /// QoS 1 with a caller-chosen packet id
     Q1Id(u16),
+    /// QoS 1 / QoS 2 send whose future is polled once (the PUBLISH is written) and then dropped: the application gave up
+    /// waiting (timeout, select); the peer's acknowledgement arrives for a send nobody awaits any more
+    Q1Abandon,
+    Q2Abandon,
     /// two QoS 1 send futures created back to back and only then polled together (`join`): both are "awaiting
     /// sends" of one task, e.g. `join!(a.send_at_least_once(..), b.send_at_least_once(..))`
     Q1Join,
@@ -277,6 +281,16 @@ async fn run_sender_v5(sink: ntex_mqtt::v5::MqttSink, kind: SK, j: usize, app: A
                 Err(e) => format!("err:{e:?}"),
             });
         }
+        SK::Q1Abandon | SK::Q2Abandon => {
+            let first = if kind == SK::Q1Abandon {
+                let mut fut = Box::pin(sink.publish(bs("t")).send_at_least_once(by(&[tag(j)])));
+                std::future::poll_fn(|cx| std::task::Poll::Ready(fut.as_mut().poll(cx).is_ready())).await
+            } else {
+                let mut fut = Box::pin(sink.publish(bs("t")).send_exactly_once(by(&[tag(j)])));
+                std::future::poll_fn(|cx| std::task::Poll::Ready(fut.as_mut().poll(cx).is_ready())).await
+            };
+            push(if first { "resolved-at-once".into() } else { "abandoned".into() });
+        }
         SK::Q1Join => {
             let f1 = sink.publish(bs("t")).send_at_least_once(by(&[tag(j)]));
             let f2 = sink.publish(bs("t")).send_at_least_once(by(&[tag(j)]));
@@ -514,6 +528,16 @@ async fn run_sender_v3(sink: ntex_mqtt::v3::MqttSink, kind: SK, j: usize, app: A
                 Ok(a) => format!("ok:{a:?}"),
                 Err(e) => format!("err:{e:?}"),
             });
+        }
+        SK::Q1Abandon | SK::Q2Abandon => {
+            let first = if kind == SK::Q1Abandon {
+                let mut fut = Box::pin(sink.publish(bs("t")).send_at_least_once(by(&[tag(j)])));
+                std::future::poll_fn(|cx| std::task::Poll::Ready(fut.as_mut().poll(cx).is_ready())).await
+            } else {
+                let mut fut = Box::pin(sink.publish(bs("t")).send_exactly_once(by(&[tag(j)])));
+                std::future::poll_fn(|cx| std::task::Poll::Ready(fut.as_mut().poll(cx).is_ready())).await
+            };
+            push(if first { "resolved-at-once".into() } else { "abandoned".into() });
         }
         SK::Q1Join => {
             let f1 = sink.publish(bs("t")).send_at_least_once(by(&[tag(j)]));
